@@ -13,6 +13,7 @@ C01 FROM FILE TO FILE, second part (continues `Props/C01File.lean`):
 -/
 import TLX.Props.C01File
 import TLX.Lemmas.BuildBounds
+import TLX.Props.C09Found
 set_option autoImplicit false
 set_option linter.unusedSimpArgs false
 namespace TLX.Props.C01File2
@@ -437,6 +438,119 @@ theorem tls13_capture_exact_file (mask : Quic.Dissect.MaskFn) (H : Crypto.Prims)
   obtain ⟨f, hf, hrb⟩ := export_of_session_file mask H P args cv.isLegacy keyFile _ (evs.map CEv.cap) hread hok hnoc pm ports
     hpm hports (refPkt fl) p0 rest hF hcand _ hconn hfits (hothers _ hconn)
   exact ⟨f, hf, frames, hrb, hre⟩
+
+/-- **… with the key-log FILE given as text**: lines in NSS Key Log Format or anything else, LF or CRLF line ends, any
+    order (`C09Found.fileText`); the hypothesis about the key log is now about the LINES of the file: those with the
+    connection's client random and label CLIENT_RANDOM are `fk :: fks`. -/
+theorem tls12_capture_exact_text (mask : Quic.Dissect.MaskFn) (H : Crypto.Prims) (P : Prims) (L : SealLaws P)
+    -- the capture file: bytes written by the independent encoder in ANY container variant, holding the described packets
+    (fl : Flow) (hne : clientEp fl ≠ serverEp fl) (evs : List CEv) (hdesc : Described fl evs)
+    (hnot1 : ∀ e ∈ evs.map CEv.cap, Ingest.isMinusOne e.t = false)
+    (cv : Spec.Containers.Variant) (cevs : List Spec.Containers.Ev) (hcwf : cv.WF cevs)
+    (hitems : cevs.filterMap (Spec.Containers.scale cv) = (evs.map CEv.cap).map CapEv.item)
+    -- the options: no `-c`, no `-a`; the server port is a server port, the client port is not
+    (args : Args) (ls : List (C09Found.FLine × Bool)) (hls : ∀ x ∈ ls, x.1.WF)
+    (hnoc : args.checksumTest = false) (hmeta : args.metadata = false)
+    (pm : List (Int × Int)) (ports : List Int)
+    (hpm : Options.getPortMap Options.Src.bare args.mArg = .ok pm)
+    (hports : Options.serverPorts Options.Src.builtin Options.Src.pDefault args.pArg = .ok ports)
+    (hsp : ports.contains (fl.serverPort : Int) = true) (hcp : ports.contains (fl.clientPort : Int) = false)
+    (p0 : Pkt) (rest : List Pkt) (hfp : flowPkts fl 0 evs = p0 :: rest)
+    -- the connection as sent (hypotheses of `tls12_connection_exact`, for the session object and the key-log file)
+    (t : Transcript) (hch : t.ch.WellFormed) (hsh : t.sh.WellFormed) (hrc : t.rvC.length = 2) (hrs : t.rvS.length = 2)
+    (hv : t.ver.length = 2) (hcomp : t.sh.compressionMethod = 0)
+    (v : Session.Ver) (hvne : v ≠ .tls13) (hneg : Negotiated t.rvS t.sh v)
+    (ps : CipherSuite.Params) (hres : CipherSuite.resolve (Bytes.beNat t.sh.cipherSuite) = some ps)
+    (a : Pipeline.SuiteArgs) (hargs : Pipeline.suiteArgs ps = some a)
+    (fk : Keylog.Key) (fks : List Keylog.Key)
+    (hfound : (C09Found.linesFor (Pipeline.natsOfBytes t.ch.random) ls).filter
+        (fun k => k.label == Keylog.s_CLIENT_RANDOM || k.label == Keylog.s_RSA) = fk :: fks)
+    (secrets : List KeySchedule.Secret) (hsec : Pipeline.secretsOf false (fk :: fks) = some secrets)
+    (k : KeySchedule.Keys6)
+    (hgen : KeySchedule.generateKeys H (Pipeline.ksVersion v) a.ks secrets t.ch.random t.sh.random
+      = .ok (some (.legacy k)))
+    (cls : CipherClass)
+    (hcls : classOf a.bulk (Pipeline.rlVersion v)
+      (Session.extGet ((t.sh.extensions.getD []).map extPair) [0x00, 0x16]).isSome a.tagLen = some cls)
+    (hmac : 0 < (KeySchedule.macSuite H a.ks.mac).outLen)
+    (hck : KeyMatOk cls k.clientKey k.clientIv) (hsk : KeyMatOk cls k.serverKey k.serverIv)
+    (hsc : Script12 t.cEvs) (hss : Script12 t.sEvs)
+    (hokc : ∀ e ∈ t.cEvs, EvOk1 cls (KeySchedule.macSuite H a.ks.mac).outLen e)
+    (hoks : ∀ e ∈ t.sEvs, EvOk1 cls (KeySchedule.macSuite H a.ks.mac).outLen e)
+    (hwr : ∀ d, ∀ r ∈ t.records P L cls (legacySnd k) d, WholeRecord r)
+    (hlen : t.cEvs.length + t.sEvs.length ≤ seqLimit)
+    -- the capture of the connection, sender side; causality on the released records as in the connection capstone
+    (hwires : WiresInOrder evs (t.stream P L cls (legacySnd k)))
+    (hcausal : Causal12 (connRecs (capInfo (evs.map CEv.cap)) (sessionOf (evs.map CEv.cap) (optsOf args ports pm) p0 rest)))
+    -- what the write loop needs (each CAN fail on the real tool: see the header)
+    (hcport : fl.clientPort < 65536) (hsport : fl.serverPort < 65536) (hpmv : ∀ kv ∈ pm, kv.2.toNat < 65536)
+    (hbytes : (Spec.TlsConnection.plainOf t.cEvs).length + (Spec.TlsConnection.plainOf t.sEvs).length + 1 < 2 ^ 32)
+    (hrec : RecordsFit H P (capInfo (evs.map CEv.cap)) (sessionOf (evs.map CEv.cap) (optsOf args ports pm) p0 rest)
+      ((fileKeysOf (some (C09Found.fileText ls))).getD []))
+    (hus : ∀ e ∈ evs.map CEv.cap, e.us < 2 ^ 64)
+    (hothers : ∀ blk, Pipeline.connOut H P (capInfo (evs.map CEv.cap))
+        (sessionOf (evs.map CEv.cap) (optsOf args ports pm) p0 rest) ((fileKeysOf (some (C09Found.fileText ls))).getD []) = some blk →
+      OthersFit mask H P args (some (C09Found.fileText ls)) (evs.map CEv.cap) blk) :
+    ∃ f, exportFile mask H P args cv.isLegacy (some (C09Found.fileText ls)) (Spec.Containers.encode cv cevs) = .file f ∧
+      Exact f (sessionOf (evs.map CEv.cap) (optsOf args ports pm) p0 rest)
+        (Spec.TlsConnection.plainOf t.cEvs) (Spec.TlsConnection.plainOf t.sEvs) :=
+  tls12_capture_exact_file mask H P L fl hne evs hdesc hnot1 cv cevs hcwf hitems args (some (C09Found.fileText ls)) hnoc hmeta pm ports hpm hports hsp hcp p0 rest hfp t hch hsh hrc hrs hv hcomp v hvne hneg ps hres a hargs fk fks (by rw [C09Found.found12_fileText ls hls]; exact hfound) secrets hsec k hgen cls hcls hmac hck hsk hsc hss hokc hoks hwr hlen hwires hcausal hcport hsport hpmv hbytes hrec hus hothers
+
+/-- **… with the key-log FILE given as text**: lines in NSS Key Log Format or anything else, LF or CRLF line ends, any
+    order (`C09Found.fileText`); the hypothesis about the key log is now about the LINES of the file: those with the
+    connection's client random are `fk :: fks`. -/
+theorem tls13_capture_exact_text (mask : Quic.Dissect.MaskFn) (H : Crypto.Prims) (P : Prims) (L : SealLaws P)
+    -- the capture file: bytes written by the independent encoder in ANY container variant, holding the described packets
+    (fl : Flow) (hne : clientEp fl ≠ serverEp fl) (evs : List CEv) (hdesc : Described fl evs)
+    (hnot1 : ∀ e ∈ evs.map CEv.cap, Ingest.isMinusOne e.t = false)
+    (cv : Spec.Containers.Variant) (cevs : List Spec.Containers.Ev) (hcwf : cv.WF cevs)
+    (hitems : cevs.filterMap (Spec.Containers.scale cv) = (evs.map CEv.cap).map CapEv.item)
+    -- the options: no `-c`, no `-a`; the server port is a server port, the client port is not
+    (args : Args) (ls : List (C09Found.FLine × Bool)) (hls : ∀ x ∈ ls, x.1.WF)
+    (hnoc : args.checksumTest = false) (hmeta : args.metadata = false)
+    (pm : List (Int × Int)) (ports : List Int)
+    (hpm : Options.getPortMap Options.Src.bare args.mArg = .ok pm)
+    (hports : Options.serverPorts Options.Src.builtin Options.Src.pDefault args.pArg = .ok ports)
+    (hsp : ports.contains (fl.serverPort : Int) = true) (hcp : ports.contains (fl.clientPort : Int) = false)
+    (p0 : Pkt) (rest : List Pkt) (hfp : flowPkts fl 0 evs = p0 :: rest)
+    -- the connection as sent (hypotheses of `tls13_connection_exact`, for the session object and the key-log file)
+    (t : Transcript) (hch : t.ch.WellFormed) (hsh : t.sh.WellFormed) (hrc : t.rvC.length = 2) (hrs : t.rvS.length = 2)
+    (hv : t.ver.length = 2) (hcomp : t.sh.compressionMethod = 0) (hneg : Negotiated t.rvS t.sh .tls13)
+    (ps : CipherSuite.Params) (hres : CipherSuite.resolve (Bytes.beNat t.sh.cipherSuite) = some ps)
+    (a : Pipeline.SuiteArgs) (hargs : Pipeline.suiteArgs ps = some a)
+    (fk : Keylog.Key) (fks : List Keylog.Key)
+    (hfound : C09Found.linesFor (Pipeline.natsOfBytes t.ch.random) ls = fk :: fks)
+    (secrets : List KeySchedule.Secret) (hsec : Pipeline.secretsOf true (fk :: fks) = some secrets)
+    (k : KeySchedule.Installed13)
+    (hgen : KeySchedule.generateKeys H .tls13 a.ks secrets t.ch.random t.sh.random = .ok (some (.tls13 k)))
+    (chk chiv cak caiv shk shiv sak saiv : Bytes)
+    (hk : k.clientHsKey = some chk ∧ k.clientHsIv = some chiv ∧ k.clientAppKey = some cak ∧ k.clientAppIv = some caiv ∧
+      k.serverHsKey = some shk ∧ k.serverHsIv = some shiv ∧ k.serverAppKey = some sak ∧ k.serverAppIv = some saiv)
+    (cls : CipherClass)
+    (hcls : classOf a.bulk .tls13
+      (Session.extGet ((t.sh.extensions.getD []).map extPair) [0x00, 0x16]).isSome a.tagLen = some cls)
+    (h1 : KeyMatOk cls chk chiv) (h2 : KeyMatOk cls cak caiv) (h3 : KeyMatOk cls shk shiv) (h4 : KeyMatOk cls sak saiv)
+    (hsc : Script13 t.cEvs) (hss : Script13 t.sEvs)
+    (hokc : ∀ e ∈ t.cEvs, EvOk1 cls (KeySchedule.macSuite H a.ks.mac).outLen e)
+    (hoks : ∀ e ∈ t.sEvs, EvOk1 cls (KeySchedule.macSuite H a.ks.mac).outLen e)
+    (hwr : ∀ d, ∀ r ∈ t.records P L cls ⟨SDir.init chk chiv cak caiv, SDir.init shk shiv sak saiv⟩ d, WholeRecord r)
+    (hlen : budget13 t ≤ seqLimit)
+    -- the capture of the connection, sender side; causality on the released records as in the connection capstone
+    (hwires : WiresInOrder evs (t.stream P L cls ⟨SDir.init chk chiv cak caiv, SDir.init shk shiv sak saiv⟩))
+    (hcausal : Causal13 (connRecs (capInfo (evs.map CEv.cap)) (sessionOf (evs.map CEv.cap) (optsOf args ports pm) p0 rest)))
+    -- what the write loop needs (each CAN fail on the real tool: see the header)
+    (hcport : fl.clientPort < 65536) (hsport : fl.serverPort < 65536) (hpmv : ∀ kv ∈ pm, kv.2.toNat < 65536)
+    (hbytes : (Spec.TlsConnection.plainOf t.cEvs).length + (Spec.TlsConnection.plainOf t.sEvs).length + 1 < 2 ^ 32)
+    (hrec : RecordsFit H P (capInfo (evs.map CEv.cap)) (sessionOf (evs.map CEv.cap) (optsOf args ports pm) p0 rest)
+      ((fileKeysOf (some (C09Found.fileText ls))).getD []))
+    (hus : ∀ e ∈ evs.map CEv.cap, e.us < 2 ^ 64)
+    (hothers : ∀ blk, Pipeline.connOut H P (capInfo (evs.map CEv.cap))
+        (sessionOf (evs.map CEv.cap) (optsOf args ports pm) p0 rest) ((fileKeysOf (some (C09Found.fileText ls))).getD []) = some blk →
+      OthersFit mask H P args (some (C09Found.fileText ls)) (evs.map CEv.cap) blk) :
+    ∃ f, exportFile mask H P args cv.isLegacy (some (C09Found.fileText ls)) (Spec.Containers.encode cv cevs) = .file f ∧
+      Exact f (sessionOf (evs.map CEv.cap) (optsOf args ports pm) p0 rest)
+        (Spec.TlsConnection.plainOf t.cEvs) (Spec.TlsConnection.plainOf t.sEvs) :=
+  tls13_capture_exact_file mask H P L fl hne evs hdesc hnot1 cv cevs hcwf hitems args (some (C09Found.fileText ls)) hnoc hmeta pm ports hpm hports hsp hcp p0 rest hfp t hch hsh hrc hrs hv hcomp hneg ps hres a hargs fk fks (by rw [C09Found.found13_fileText ls hls]; exact hfound) secrets hsec k hgen chk chiv cak caiv shk shiv sak saiv hk cls hcls h1 h2 h3 h4 hsc hss hokc hoks hwr hlen hwires hcausal hcport hsport hpmv hbytes hrec hus hothers
 
 end
 
